@@ -54,6 +54,32 @@ def Th.fresh (pref : Nat) : Th :=
   { pref := pref, suffix := 0, stack := Stack.withCapacity Consts.spanStackSize, guards := [],
     pending := [], registered := false, alive := true }
 
+/-- which adapter wraps the inner future / stream / sink -/
+inductive AdKind where
+  | inSpan        -- `fastrace::future::FutureExt::in_span`
+  | enterOnPoll   -- `fastrace::future::FutureExt::enter_on_poll`
+  | stream        -- `fastrace_futures::StreamExt::in_span`
+  | sink          -- `fastrace_futures::SinkExt::in_span`
+deriving Repr, DecidableEq, Inhabited
+
+/-- an adapter value: `span = some sv` while the adapter still holds its `Option<Span>` -/
+structure Adapter where
+  kind : AdKind
+  span : Option SpanVal
+  name : String
+  inCall : Option String
+deriving Repr, Inhabited
+
+/-- does this call, returning this result, finish the adapter's span?
+    (`Poll::Pending` never does; a future finishes on `Ready`, a stream on `Ready(None)`,
+    a sink when `poll_close` is `Ready`) -/
+def adFinishes (kind : AdKind) (call result : String) : Bool :=
+  match kind with
+  | .inSpan => call == "poll" && result != "pending"
+  | .stream => call == "poll_next" && result == "none"
+  | .sink => call == "poll_close" && result != "pending"
+  | .enterOnPoll => false
+
 /-- progress of the collector inside the drain of `handle_commands` -/
 inductive CycPhase where
   | atRx            -- about to drain the receiver at the head of `todo`
@@ -78,12 +104,13 @@ structure Sys where
   spans : List (String × SpanVal)
   lspans : List (String × LocalSpansVal)
   cyc : Option CycState
+  adapters : List (String × Adapter) := []
 deriving Repr, Inhabited
 
 def Sys.init : Sys :=
   { clock := 0, nextCollect := 0, reporterReady := false,
     coll := { cancelable := false, hasReporter := false, active := [] },
-    threads := [], rxs := [], spans := [], lspans := [], cyc := none }
+    threads := [], rxs := [], spans := [], lspans := [], cyc := none, adapters := [] }
 
 /-- a user closure producing properties; `reenter` selects what else it does when invoked:
     0 nothing, 1 enter+drop a `LocalSpan`, 2 `LocalSpan::add_event`,
@@ -126,6 +153,10 @@ inductive Op where
   | stats
   | exit
   | spam (n : Nat)                          -- n × (unsampled root created and dropped)
+  | adNew (a : String) (kind : AdKind) (arg : String)  -- wrap a scripted inner; `arg` = span variable / span name
+  | adPoll (a : String) (call : String)     -- the adapter method is entered; the inner body follows
+  | adEnd (a : String) (result : String)    -- the inner returns `result`; the adapter method returns
+  | adDrop (a : String)                     -- the adapter is dropped
 deriving Repr, Inhabited
 
 structure Stats where
@@ -385,6 +416,48 @@ def Sys.spamOnce (s : Sys) (t : Nat) : Sys :=
   let sv := (assocGet s.spans "__spam").getD none
   ({ s with spans := assocDel s.spans "__spam" }).dropSpanVal t sv
 
+/-- entering an adapter method: the adapter sets its span as local parent (or, for
+    `enter_on_poll`, opens a local span) around the call of the inner future / stream / sink -/
+def Sys.adPoll (s : Sys) (t : Nat) (a call : String) : Sys × Obs :=
+  match assocGet s.adapters a with
+  | none => (s, .badOp "unknown adapter")
+  | some ad =>
+    let th := s.th t
+    let s1 : Sys := { s with adapters := assocSet s.adapters a { ad with inCall := some call } }
+    match ad.kind with
+    | .enterOnPoll =>
+      -- `let _guard = LocalSpan::enter_with_local_parent(name)`
+      match th.stack.enterSpan (s.ctr t) ad.name with
+      | none => (s1.setTh t { th with guards := .localSpan none :: th.guards }, .ok)
+      | some (stack, h, c) =>
+        ((s1.setTh t { th with stack := stack, guards := .localSpan (some h) :: th.guards }).putCtr t c, .ok)
+    | _ =>
+      -- `let _guard = this.span.as_ref().map(|s| s.set_local_parent())`
+      match ad.span with
+      | some (some sp) =>
+        match th.stack.registerLine (some (issueToken sp)) with
+        | none => (s1.setTh t { th with guards := .scope none :: th.guards }, .ok)
+        | some (stack, epoch) =>
+          (s1.setTh t { th with stack := stack, guards := .scope (some epoch) :: th.guards }, .ok)
+      | _ => (s1.setTh t { th with guards := .scope none :: th.guards }, .ok)
+
+/-- the inner returns `result`: the guard is dropped first (D5 fix), then, if this result
+    finishes the adapter, its span is taken and dropped -/
+def Sys.adEnd (s : Sys) (t : Nat) (a result : String) : Sys × Obs :=
+  match assocGet s.adapters a, (s.th t).guards with
+  | some ad, g :: gs =>
+    match ad.inCall with
+    | none => (s, .badOp "adapter not in a call")
+    | some call =>
+      let s1 := (s.setTh t { s.th t with guards := gs }).closeGuard t g
+      if adFinishes ad.kind call result then
+        let s2 : Sys := { s1 with adapters := assocSet s1.adapters a { ad with span := none, inCall := none } }
+        match ad.span with
+        | some sv => (s2.dropSpanVal t sv, .ok)
+        | none => (s2, .ok)
+      else ({ s1 with adapters := assocSet s1.adapters a { ad with inCall := none } }, .ok)
+  | _, _ => (s, .badOp "unknown adapter or no guard")
+
 def exec (s : Sys) (t : Nat) (op : Op) : Sys × Obs :=
   let th := s.th t
   match op with
@@ -554,6 +627,23 @@ def exec (s : Sys) (t : Nat) (op : Op) : Sys × Obs :=
   | .spam n =>
     if s.cyc.isSome ∧ !th.registered then (s, .badOp "blocked: registry locked by the drain") else
     (Nat.rec s (fun _ acc => acc.spamOnce t) n, .ok)
+  | .adNew a kind arg =>
+    match kind with
+    | .enterOnPoll => ({ s with adapters := assocSet s.adapters a ⟨kind, none, arg, none⟩ }, .ok)
+    | _ =>
+      match assocGet s.spans arg with
+      | none => (s, .badOp "unknown span")
+      | some sv => ({ s with spans := assocDel s.spans arg, adapters := assocSet s.adapters a ⟨kind, some sv, "", none⟩ }, .ok)
+  | .adPoll a call => s.adPoll t a call
+  | .adEnd a result => s.adEnd t a result
+  | .adDrop a =>
+    match assocGet s.adapters a with
+    | none => (s, .badOp "unknown adapter")
+    | some ad =>
+      let s := { s with adapters := assocDel s.adapters a }
+      match ad.span with
+      | some sv => (s.dropSpanVal t sv, .ok)
+      | none => (s, .ok)
 
 /-- a program: operations tagged with the logical thread that performs them -/
 abbrev Program := List (Nat × Op)
